@@ -54,6 +54,8 @@ type Unit struct {
 	houdiniDead map[string]map[string]bool
 	vacChecked  map[string]bool
 	beforeHit   map[string]bool    // callees of "before <callee>: assert" clauses whose call was met
+	orphanLoops []int              // loop ordinals the contract names beyond the loops the function has (a loop moved into a helper)
+	adopted     map[*ssa.BasicBlock]int // loop header of an inlined helper without contract -> adopted orphan ordinal
 	droppedInv  map[*Clause]string // unlabelled helper invariants that can no longer be evaluated on the code: not assumed, not checked
 }
 
@@ -376,6 +378,26 @@ func (st *State) enterBlock() bool {
 	if fr.spec != nil {
 		ls = fr.spec.Loops[li.ordinal]
 	}
+	adoptedOrd := 0
+	if fr.spec == nil && fr.parent != nil && st.u.spec != nil && len(st.u.orphanLoops) > 0 {
+		// A loop the unit's contract speaks about was moved into a helper that has no contract of its own (the helper is
+		// inlined): its loops adopt the orphaned loop clauses in order of first encounter. The clauses are checked there
+		// like anywhere else (init / step), so a wrong pairing can only fail, never prove anything.
+		u := st.u
+		if u.adopted == nil {
+			u.adopted = map[*ssa.BasicBlock]int{}
+		}
+		ord, ok := u.adopted[fr.block]
+		if !ok && len(u.adopted) < len(u.orphanLoops) {
+			ord = u.orphanLoops[len(u.adopted)]
+			u.adopted[fr.block] = ord
+			ok = true
+		}
+		if ok {
+			ls = u.spec.Loops[ord]
+			adoptedOrd = ord
+		}
+	}
 	isTop := fr.parent == nil
 	fkey := st.eng().ld.keyOf[fr.fn]
 	_ = isTop
@@ -383,6 +405,9 @@ func (st *State) enterBlock() bool {
 	pfx := fmt.Sprintf("loop%d", li.ordinal)
 	if fr.parent != nil {
 		pfx = shortKey(fkey) + "." + pfx
+	}
+	if adoptedOrd > 0 {
+		pfx = fmt.Sprintf("loop%d", adoptedOrd) // named as in the contract
 	}
 	if ls != nil {
 		for _, gs := range ls.GhostSets {
